@@ -44,7 +44,7 @@ class C03(Prop):
         alph = S.ALPH[1:]
         for k in range(n + stress):
             src = "".join(rng.choice(alph) for _ in range(rng.randrange(1, 10)))
-            dst = "" if rng.random() < 0.15 else "".join(rng.choice(alph) for _ in range(rng.randrange(1, 10)))
+            dst = "" if (rng.random() < 0.15 or k == 0) else "".join(rng.choice(alph) for _ in range(rng.randrange(1, 10)))
             can = rng.randrange(16)
             nfr = rng.choice(lengths) if k < n else 300
             kind = rng.random() if k < n else 0.0
@@ -68,10 +68,12 @@ class C03(Prop):
                     p["app"] = 3        # a second demodulator instance runs interleaved in the same process (shared function-local statics)
                     ctx.stat("rx:runs-with-second-instance")
                 pre = []
-                if rng.random() < 0.2 and k < n:
-                    a2 = [rng.randrange(-8000, 8000) for _ in range(320 * 6)]
+                if (rng.random() < 0.2 or k == 0) and k < n:
+                    # (the first case always: a COMPLETE earlier transmission of another station to the same destination, then this one -
+                    # LICH fragments 0, 3 and 4 of the two link setup frames are byte-identical)
+                    a2 = [rng.randrange(-8000, 8000) for _ in range(320 * (30 if k == 0 else 6))]
                     prev, _, _ = demodlib.transmission(ctx, mod, "N0CALL", "", 3, a2)
-                    pre = (prev if rng.random() < 0.5 else prev[:rng.randrange(2000, len(prev) + 1)]) + [0] * rng.choice([0, 480, 9600])
+                    pre = (prev if (rng.random() < 0.5 or k == 0) else prev[:rng.randrange(2000, len(prev) + 1)]) + [0] * rng.choice([0, 480, 9600])
                 n_pre = 0
                 if pre:
                     # how many callbacks does the earlier transmission alone produce? (the receiver is causal: everything delivered beyond
